@@ -7,7 +7,7 @@ from .common import TOL
 
 PROPERTY = "C04"
 LEVEL = "exploration"
-RUNS = {"quick": 1200, "thorough": 50000}
+RUNS = {"quick": 3500, "thorough": 50000}
 RULE = ("seeded scenarios: 1-3 scripted clients (sharing a small pool of message IDs) send CON/NON requests to a "
         "real server with fast / slow (separate response) / raising / response-suppressed handlers; copies of each "
         "request datagram arrive at chosen instants: same instant, before the handler finished, between empty ACK "
